@@ -35,9 +35,9 @@ from golem.core.tuning.sequential import SequentialTuner  # noqa: E402
 from golem.core.tuning.simultaneous import SimultaneousTuner  # noqa: E402
 
 REQ = ['Tuning.Tuner']
-FN = ('fun c => match c with (cfg, sp, tbl, pr, g, o) => '
-      '[agree cfg sp tbl pr g o; holds_b sp g o; labels_in_space_b sp (c_kind cfg) g pr; '
-      'proposals_in_range_b sp (c_kind cfg) g pr] end')
+FN = ('fun c => match c with (en, cfg, sp, tbl, pr, g, o) => '
+      '[agree_e en cfg sp tbl pr g o; holds_e en sp g o; entry_ok_b sp (pb_space sp) en (c_kind cfg) g pr; '
+      'entry_ok_b sp (pb_range sp) en (c_kind cfg) g pr] end')
 PREAMBLE = ''
 NB = 4
 
@@ -124,6 +124,7 @@ class Evaluator(ObjectiveEvaluate):
         self.ospec, self.input_snap, self.events, self.working = ospec, input_snap, events, working
         self.expected = expected        # per node: names of the search-space parameters of its operation
         self.silent = False
+        self.objects = []
         objective = Objective({'m%d' % i: (lambda g, k=k: self._metric(k, g)) for i, k in enumerate(ospec['metrics'])},
                               is_multi_objective=ospec['multi'])
         super().__init__(objective)
@@ -174,7 +175,11 @@ class Evaluator(ObjectiveEvaluate):
         else:
             r = ['I']
         if not self.silent:
-            self.events.append(('eval', graph is self.working[0], snapshot(graph), r))
+            tok = next((k for k, o in enumerate(self.objects) if o is graph), None)
+            if tok is None:
+                self.objects.append(graph)
+                tok = len(self.objects) - 1
+            self.events.append(('eval', tok, snapshot(graph), r))
         return fit
 
 
@@ -184,7 +189,7 @@ class LoggingSpace(SearchSpace):
         self._events, self._working = events, working
 
     def get_parameters_for_operation(self, operation_name):
-        self._events.append(('mark', snapshot(self._working[0]) if self._working[0] is not None else None))
+        self._events.append(('mark', None))
         return super().get_parameters_for_operation(operation_name)
 
 
@@ -211,10 +216,24 @@ def run_impl(case):
     try:
         with contextlib.redirect_stdout(sink), contextlib.redirect_stderr(sink):
             tuner = CLS[t['kind']](ev, space, None, **kw)
-            result = tuner.tune(graph, show_progress=False)
+            if case.get('entry'):
+                result = tuner.tune_node(graph, case['entry']['node'])
+            else:
+                result = tuner.tune(graph, show_progress=False)
     except Exception as ex:  # observed behaviour, judged by holds_b
         raised = '%s: %s' % (type(ex).__name__, str(ex)[:120])
     end_snap = snapshot(graph)
+    # which evaluated object is the WORKING graph (the one the trials mutate)?  The input object when it was
+    # evaluated after the initial check (the tuners work in place), else the most often evaluated object
+    toks = [e[1] for e in events if e[0] == 'eval'][1:]
+    in_tok = next((k for k, o in enumerate(ev.objects) if o is graph), None)
+    if in_tok in toks:
+        wtok = in_tok
+    else:
+        wtok = max(toks, key=lambda k: (toks.count(k), -toks.index(k))) if toks else None
+        if wtok is not None and toks.count(wtok) < 2 and len(toks) < 2:
+            wtok = None          # one evaluation of another object: the final check of a copy
+    events[:] = [(e[0], e[1] == wtok, e[2], e[3]) if e[0] == 'eval' else e for e in events]
     # OptunaTuner keeps its study as a public attribute: the proposals themselves are observable
     study = None
     if raised is None and t['kind'] == 'optuna' and getattr(tuner, 'study', None) is not None:
@@ -262,7 +281,8 @@ def run_impl(case):
             obs['reported'] = [metric_of_attr(m) for m in rep]
         else:
             obs['reported'] = metric_of_attr(rep)
-    return {'input': structure(input_copy), 'events': events, 'end_snap': end_snap, 'obs': obs, 'study': study}
+    return {'input': structure(input_copy), 'events': events, 'end_snap': end_snap, 'obs': obs, 'study': study,
+            'input_mutated': snap_key(end_snap) != snap_key(snapshot(input_copy))}
 
 
 def metric_of_attr(m):
@@ -311,30 +331,44 @@ def build_proposer(case, run):
     if not evals:
         return pr
     init_res = evals[0][3]
+    raised = run['obs']['raised'] is not None
+    if case.get('entry'):
+        i = case['entry']['node']
+        rest = evals[1:]
+        if rest:
+            trials = rest if raised else rest[:-1]
+            pr['steps'].append({'trials': [infer_node(sspec, names, i, e[2][i]) for e in trials],
+                                'best': infer_node(sspec, names, i, rest[-1][2][i]),
+                                'loss': fit_min([e[3] for e in trials])})
+        return pr
     if t['kind'] == 'sequential':
         order = list(range(len(names)))
         if t.get('inverse'):
             order.reverse()
-        groups, started, seen_init = [], False, False
-        for e in events:
+        # the last evaluation of a run that returned is the final check; marks (our SearchSpace is queried once
+        # per node) segment the rest into the per-node steps
+        last_eval = None if raised else max((k for k, e in enumerate(events) if e[0] == 'eval'), default=None)
+        groups, seen_init = [], False
+        for k, e in enumerate(events):
             if e[0] == 'eval' and not seen_init:
                 seen_init = True
                 continue
             if not seen_init:
                 continue
             if e[0] == 'mark':
-                groups.append({'mark': e[1], 'evals': []})
-            elif e[1] and groups:
+                groups.append({'evals': []})
+            elif k != last_eval and groups:
                 groups[-1]['evals'].append(e)
+        final_snap = events[last_eval][2] if last_eval is not None and seen_init and last_eval > 0 else run['end_snap']
         for k, grp in enumerate(groups):
             if k >= len(order):
                 break
             i = order[k]
-            if not sspec.get(names[i]):
+            if not sspec.get(names[i]) or not grp['evals']:
                 continue
-            if not grp['evals']:
-                continue
-            after = groups[k + 1]['mark'] if k + 1 < len(groups) else run['end_snap']
+            # the node's parameters after the step: visible in the next evaluation of the working graph
+            later = [e for g2 in groups[k + 1:] for e in g2['evals']]
+            after = later[0][2] if later else final_snap
             pr['steps'].append({'trials': [infer_node(sspec, names, i, e[2][i]) for e in grp['evals']],
                                 'best': infer_node(sspec, names, i, after[i]),
                                 'loss': fit_min([e[3] for e in grp['evals']])})
@@ -461,7 +495,8 @@ def c_observed(obs):
 
 
 def coq_case(case, run, obs=None):
-    return '(%s, %s, %s, %s, %s, %s)' % (c_config(case['tuner']), c_space(case['space']), c_table(run),
+    en = '(ETuneNode %s)' % c_nat(case['entry']['node']) if case.get('entry') else 'ETune'
+    return '(%s, %s, %s, %s, %s, %s, %s)' % (en, c_config(case['tuner']), c_space(case['space']), c_table(run),
                                          c_proposer(build_proposer(case, run)), c_graph(run['input']),
                                          c_observed(obs or run['obs']))
 
@@ -490,8 +525,8 @@ def threshold_ambiguous(case, run):
 # ----------------------------------------------------------------------------------------
 # generators
 # ----------------------------------------------------------------------------------------
-OPS = ['a', 'b', 'e', 'k']
-UNTUNABLE = ['c', 'd']
+OPS = ['a', 'b', 'e', 'k', 'scale | shift', 'x || y']
+UNTUNABLE = ['c', 'd', 'c | d']
 
 
 def gen_param(r, for_iopt):
@@ -514,10 +549,12 @@ def gen_space(r, for_iopt):
     spec = {}
     for op in r.sample(OPS, r.choice([1, 2, 2, 3])):
         n = r.choice([1, 2, 2, 3]) if not for_iopt else r.choice([1, 2])
-        spec[op] = {'%s%d' % (op, j + 1): gen_param(r, for_iopt) for j in range(n)}
+        short = op[0]
+        fmt = r.choice(['%s%d', '%s%d', '%s rate %d', 'max %s %d'])
+        spec[op] = {fmt % (short, j + 1): gen_param(r, for_iopt) for j in range(n)}
     if for_iopt and r.random() < 0.9:
         op = r.choice(sorted(spec))
-        spec[op]['%sf' % op] = ['uniform', 0.5, r.choice([1.0, 2.0])]
+        spec[op]['%sf' % op[0]] = ['uniform', 0.5, r.choice([1.0, 2.0])]
     return spec
 
 
@@ -639,6 +676,47 @@ def wide_cases(r, n):
     return out
 
 
+def node_cases(r, n):
+    """SequentialTuner.tune_node: a node with >= 2 search-space parameters (none / some / all initialised), or with
+    one / none (tuning not possible); objectives that improve, that get worse for every change (fallback to the
+    initial graph) and failing ones"""
+    out = []
+    for c in range(n):
+        two = {'x': r.choice([['uniform', 1.0, 5.0], ['uniformint', 1, 4]]), 'y': ['uniform', 1.0, 5.0]}
+        if r.random() < 0.3:
+            two['max z'] = ['choice', [1, 2, 5]]
+        opn = r.choice(['b', 'b', 'scale | shift'])
+        sspec = {opn: two, 'k': {'k1': ['uniform', 0.5, 1.0]}}
+        n_nodes = r.choice([1, 2, 3, 4])
+        gspec = []
+        for i in range(n_nodes):
+            name = r.choice([opn, opn, 'k', 'c'])
+            params = None
+            if r.random() < 0.7:
+                params = {p: value_inside(r, s) for p, s in sspec.get(name, {}).items() if r.random() < 0.5}
+                if r.random() < 0.5:
+                    params['fixed'] = 0.5
+            gspec.append({'name': name, 'params': params, 'parents': [i + 1] if i + 1 < n_nodes else []})
+        kind = r.choice(['sum', 'sum', 'neg', 'quad', 'near', 'initmin', 'const'])
+        out.append({'space': sspec, 'graph': gspec,
+                    'objective': {'multi': r.random() < 0.1, 'metrics': [kind] if True else None,
+                                  'fail': r.choice([None, None, None, 'mod3', 'on-set']),
+                                  'defaults': r.random() < 0.5},
+                    'tuner': {'kind': 'sequential', 'iterations': r.choice([1, 2, 3, 5, 8]), 'deviation': r.choice([0.05, 0.0, 25.0])},
+                    'entry': {'node': r.randrange(n_nodes)}})
+        tun = [i for i, nd in enumerate(gspec) if nd['name'] == opn]
+        if tun and r.random() < 0.8:
+            out[-1]['entry'] = {'node': r.choice(tun)}      # chains: graph.nodes is in index order
+        if out[-1]['objective']['multi']:
+            out[-1]['objective']['metrics'] = [kind, 'quad']
+    # the input class of the round-4 seeded change: x initialised, y not, every value of y makes the sum worse
+    out.append({'space': {'b': {'x': ['uniform', 1.0, 5.0], 'y': ['uniform', 1.0, 5.0]}},
+                'graph': [{'name': 'b', 'params': {'x': 1.0}, 'parents': [1]}, {'name': 'a', 'params': {'fixed': 0.5}, 'parents': []}],
+                'objective': {'multi': False, 'metrics': ['sum'], 'fail': None, 'defaults': False},
+                'tuner': {'kind': 'sequential', 'iterations': 8, 'deviation': 0.05}, 'entry': {'node': 0}})
+    return out
+
+
 def corner_cases():
     """fixed corner inputs (nothing to tune, one node, empty graph / space, unsupported modes)"""
     sp1 = {'a': {'x': ['uniformint', 1, 3], 'y': ['uniform', 0.5, 1.0]}}
@@ -677,6 +755,14 @@ def corner_cases():
                     'tuner': base, 'corner': 'categorical'})
     out.append({'space': sp1, 'graph': one_init, 'objective': {'multi': False, 'metrics': ['neg'], 'fail': None},
                 'tuner': {'kind': 'sequential', 'iterations': 3, 'deviation': 0.05, 'inverse': True}, 'corner': 'inverse'})
+    sps = {'scale | shift': {'p': ['uniform', 0.5, 1.0], 'max depth': ['uniformint', 1, 3]},
+           'x || y': {'learning rate': ['uniform', 0.25, 0.75]}}
+    gs = [{'name': 'scale | shift', 'params': {'p': 1.0, 'note': 'A'}, 'parents': [1]},
+          {'name': 'x || y', 'params': None, 'parents': [2]},
+          {'name': 'c | d', 'params': {'p': 5, 'q': 1}, 'parents': []}]
+    for kind in KINDS:
+        out.append({'space': sps, 'graph': gs, 'objective': {'multi': False, 'metrics': ['sum'], 'fail': None},
+                    'tuner': {'kind': kind, 'iterations': 3, 'deviation': 0.0}, 'corner': 'separators-in-names'})
     return out
 
 
@@ -727,7 +813,7 @@ def finding_key(case, run):
 
 
 def case_key(case):
-    return repr((case['space'], case['graph'], case['objective'], case['tuner']))
+    return repr((case['space'], case['graph'], case['objective'], case['tuner'], case.get('entry')))
 
 
 def facts(case, run):
@@ -735,7 +821,8 @@ def facts(case, run):
     evals = [e for e in run['events'] if e[0] == 'eval']
     ret_init = (obs['raised'] is None and not obs['multi'] and obs['graphs']
                 and all(a['params'] == b['params'] for a, b in zip(run['input'], obs['graphs'][0])))
-    return dict(tuner=case['tuner']['kind'], multi=case['objective']['multi'], nodes=len(case['graph']),
+    return dict(tuner=case['tuner']['kind'], entry='tune_node' if case.get('entry') else 'tune', input_mutated=run['input_mutated'],
+                multi=case['objective']['multi'], nodes=len(case['graph']),
                 iterations=case['tuner']['iterations'], objective='+'.join(case['objective']['metrics']),
                 fail=case['objective'].get('fail'), deviation=case['tuner']['deviation'],
                 tunable=has_tunable(case), raised=obs['raised'] is not None,
@@ -769,7 +856,7 @@ def evaluate_cases(ctx, group, cases):
         f = facts(case, run)
         nontrivial = f['tunable'] and not f['raised']
         ctx.count(group, key=case_key(case), nontrivial=nontrivial, labels_hypothesis=hyp, proposals_in_range=rng, **f)
-        slim = {k: case[k] for k in ('space', 'graph', 'objective', 'tuner')}
+        slim = {k: case[k] for k in ('space', 'graph', 'objective', 'tuner', 'entry') if k in case}
         slim['observed'] = {k: run['obs'][k] for k in ('raised', 'multi', 'init_metric', 'reported', 'metric_in', 'metric_ret')}
         slim['returned_params'] = [[n['params'] for n in g] for g in run['obs']['graphs']]
         if not ho:
@@ -809,7 +896,9 @@ def run(ctx):
                 'minimum at the initial point, slightly worse than the input elsewhere, constant; failing on a third of the assignments / on every tuned assignment / '
                 'on the input) x iterations 1..12 x deviation {0.05, 0, 25}; single- and multi-objective (Optuna / IOpt), plus a '
                 'fixed list of corner inputs for every tuner, plus chains of 11-13 nodes (two-digit node ids; frozen nodes 1, 2 share a '
-                'parameter name with tunable nodes 10..) for Simultaneous / Optuna; distinct = distinct (space, graph, objective, tuner config); '
+                'parameter name with tunable nodes 10..) for Simultaneous / Optuna, and a group driving the second entry point '
+                'SequentialTuner.tune_node(graph, node_index); operation names may contain the label separators (" | ", " || "), '
+                'parameter names spaces; distinct = distinct (space, graph, objective, tuner config); '
                 'non-trivial = something to tune and tune() returned')
     ctx.trusted_extra = [
         'hyperopt / optuna / iOpt are arbitrary proposers to the model: their proposals are inferred from the logged '
@@ -817,7 +906,8 @@ def run(ctx):
         'for OptunaTuner the proposals are read from tuner.study (trials and best_trials) instead',
         'the clause "tuned parameters lie in their range" is proved only relative to the libraries proposing in range; '
         'the runs check it on the observed results',
-        'identity adapter only (the input graph object is the working graph; evaluations of other objects are copies); '
+        'identity adapter only; the working graph is recognised as the input object if the tuner evaluates it, else as the '
+        'most often evaluated object (evaluations of other objects are copies); '
         'time budget abstracted (5 min timeout never reached)',
         'objective values are multiples of 1/64 so binary64 comparisons equal the Q comparisons; cases with a metric within '
         'rounding distance of the deviation threshold are skipped (counted in notes)']
@@ -839,6 +929,7 @@ def run(ctx):
                     'observed': {k: run_['obs'][k] for k in ('raised', 'multi', 'init_metric', 'reported', 'metric_in', 'metric_ret')},
                     'returned_params': [[nd['params'] for nd in g] for g in run_['obs']['graphs']],
                     'agree': r[0], 'holds': r[1]})
+    kept, runs, res = evaluate_cases(ctx, 'tune_node', node_cases(ctx.rng, ctx.budget(40, 300)))
     wide = wide_cases(ctx.rng, ctx.budget(16, 80))
     kept, runs, res = evaluate_cases(ctx, 'wide', wide)
     for case, run_ in zip(kept, runs):
@@ -854,6 +945,6 @@ def replay(ctx, payload):
     case = v.get('case') if isinstance(v, dict) else None
     if not case or 'tuner' not in case:
         return
-    case = {k: case[k] for k in ('space', 'graph', 'objective', 'tuner')}
+    case = {k: case[k] for k in ('space', 'graph', 'objective', 'tuner', 'entry') if k in case}
     # the libraries draw from OS entropy: repeat the configuration a few times
     evaluate_cases(ctx, 'replay', [deepcopy(case) for _ in range(int(payload.get('repeat', 5)))])
